@@ -1569,6 +1569,8 @@ class AbsInt:
             except Exception:
                 return Opaque('slice')
         al = _as_alist(base)
+        if al is not None and al.kind in ('deque', 'iterator'):
+            raise AbsRaise('TypeError', node, implicit=True, msg=f'{al.kind} objects cannot be sliced')
         if al is not None and isinstance(hi, LenV):
             # an end index computed from len(): len(x) -> no end, len(x) - k -> -k
             total = self.length_of(al, node)
@@ -2224,6 +2226,8 @@ class AbsInt:
             return v.absint_len()
         if isinstance(v, AList) and v.kind == 'deque':
             log_event('deque', 'test', v, node)
+        if isinstance(v, AList) and v.kind == 'iterator':
+            raise AbsRaise('TypeError', node, implicit=True, msg='len() of an iterator')
         if isinstance(v, AList):
             c = sum(1 for x in v.items if not isinstance(x, SeqVar))
             c = 0
